@@ -229,13 +229,14 @@ func decideOnVariants(pr *Prog, l *Ledger, open []*Obligation, id string, rs *ru
 	claims := claimsOf(pr, l, verif)
 	var prevInlined string
 	for _, v := range []struct {
-		name string
-		keep map[string]bool
-	}{{"unclaimed-helpers-inlined", claims}} {
+		name        string
+		keep        map[string]bool
+		lowerDefers bool
+	}{{"unclaimed-helpers-inlined", claims, false}, {"unclaimed-helpers-inlined, deferring helpers too", claims, true}} {
 		// (A second variant with every helper inlined was tried and withdrawn: rules that hang an obligation on the call
 		// of a helper they know by role lose that obligation when the helper is inlined, so a real defect - mutant
 		// c11-peek-evicts-neighbour - passed on it.)
-		pv, inl, rem := variantFor(v.keep)
+		pv, inl, rem := variantFor(v.keep, v.lowerDefers)
 		if pv == nil {
 			continue
 		}
@@ -371,13 +372,16 @@ var rc runContext
 
 // variantFor returns (building it on first use) the equivalent program in which the helpers not in keep are inlined;
 // nil when nothing would be inlined or the variant cannot be built.
-func variantFor(keep map[string]bool) (*Prog, []string, []string) {
+func variantFor(keep map[string]bool, lowerDefers bool) (*Prog, []string, []string) {
 	var ks []string
 	for k := range keep {
 		ks = append(ks, k)
 	}
 	sort.Strings(ks)
 	sig := strings.Join(ks, ";")
+	if lowerDefers {
+		sig = "defers+" + sig
+	}
 	if rc.variants == nil {
 		rc.variants = map[string]*Prog{}
 	}
@@ -392,7 +396,9 @@ func variantFor(keep map[string]bool) (*Prog, []string, []string) {
 		rc.variants[sig] = nil
 		return nil, nil, nil
 	}
+	ssa.LowerDefers = lowerDefers
 	inl, rem, err := pv.InlineHelpers(keep)
+	ssa.LowerDefers = false
 	if err != nil || len(inl) == 0 {
 		rc.variants[sig] = nil
 		return nil, nil, nil
@@ -472,8 +478,23 @@ func importObligations(p *Prog, l *Ledger, from, as string, keep func(o *Obligat
 			for k := range sub.claimed {
 				keepSet[k] = true
 			}
-			if pv, _, _ := variantFor(keepSet); pv != nil {
-				sv := runSub(pv, from, rs, l.Tier)
+			pv, _, _ := variantFor(keepSet, false)
+			var sv *Ledger
+			if pv != nil {
+				sv = runSub(pv, from, rs, l.Tier)
+			}
+			if sv == nil || len(sv.infraErrs) > 0 || len(sv.Unlisted(rc.verif, nestedFloors(sv, rs.floors))) > 0 {
+				// second variant: helpers that defer are inlined too (their deferred calls made explicit at their returns)
+				if pv2, inl2, _ := variantFor(keepSet, true); pv2 != nil && (pv == nil || strings.Join(inl2, ";") != strings.Join(pv.inlinedSites, ";")) {
+					sv2 := runSub(pv2, from, rs, l.Tier)
+					if len(sv2.infraErrs) == 0 && len(sv2.Unlisted(rc.verif, nestedFloors(sv2, rs.floors))) == 0 {
+						pv, sv = pv2, sv2
+					} else if sv == nil {
+						pv, sv = pv2, sv2
+					}
+				}
+			}
+			if pv != nil && sv != nil {
 				if len(sv.infraErrs) == 0 && len(sv.Unlisted(rc.verif, nestedFloors(sv, rs.floors))) == 0 {
 					l.Note("the obligations imported from %s were decided on the equivalent program variant (helpers not in helpers_baseline.txt inlined): %d were open on the program as written", from, len(open))
 					sub = sv
